@@ -42,6 +42,7 @@ type C02Plan struct {
 	Seq      []ChunkOp     `json:"seq,omitempty"`
 	Prefix   int           `json:"prefix,omitempty"` // with-key sequences: this many honest full chunks come first (counters of the sequence are offset by it)
 	Rearmor  bool          `json:"rearmor,omitempty"` // carry the damaged binary through canonical armor
+	SrcTemp  bool          `json:"src_temp,omitempty"` // inserted/appended bytes arrive in one Read together with a transient error (once); the source then goes on
 	Delivery seam.Delivery `json:"delivery"`
 	Reads    lib.ReadSched `json:"reads"`
 }
@@ -68,7 +69,7 @@ func (C02) Meta() core.Meta {
 		},
 		Real:       []string{"filippo.io/age Decrypt", "internal/stream Reader", "internal/format Parse", "armor Reader (rearmor runs)"},
 		Stub:       []string{"ciphertext source (SimSource) and its delivery schedule", "storage image (damaged copy of what SimDisk recorded)", "crypto/rand.Reader (tape)", "byzantine writer (reference model with the file key)"},
-		FaultKinds: []string{"fault.trunc", "fault.flip", "fault.insert", "fault.delete", "fault.extend", "fault.drop", "fault.dup", "fault.swap", "fault.move", "fault.misdirect", "fault.byzantine_seq"},
+		FaultKinds: []string{"fault.trunc", "fault.flip", "fault.insert", "fault.delete", "fault.extend", "fault.drop", "fault.dup", "fault.swap", "fault.move", "fault.misdirect", "fault.byzantine_seq", "fault.src_transient_error_with_the_foreign_bytes"},
 		Probes:     []string{"probe.full_final_chunk", "probe.full_final_plus_trailing", "probe.error_from_Decrypt", "probe.error_after_release", "probe.byz_accepted_canonical", "probe.byz_rejected", "probe.trivial_same_image", "probe.empty_final_after_full", "probe.read_with_1MiB_buffer", "probe.byz_behind_255_to_257_chunks", "probe.drained_by_io_copy"},
 	}
 }
@@ -80,6 +81,7 @@ func (C02) Generate(r *core.RNG, tier string, idx uint64) interface{} {
 	p.Delivery = seam.GenDelivery(r)
 	p.Reads = lib.GenReadSched(r)
 	p.Rearmor = r.Chance(1, 6)
+	p.SrcTemp = r.Chance(1, 3)
 	switch {
 	case idx%20 == 0:
 		p.Sweep = "flips+truncs"
@@ -224,6 +226,9 @@ func (C02) Shrinks(plan interface{}) []interface{} {
 	}
 	if p.Rearmor {
 		add(func(q *C02Plan) { q.Rearmor = false })
+	}
+	if p.SrcTemp {
+		add(func(q *C02Plan) { q.SrcTemp = false })
 	}
 	if p.Delivery.Bufio != 0 {
 		add(func(q *C02Plan) { q.Delivery.Bufio = 0 })
@@ -393,6 +398,7 @@ func (e C02) Execute(plan interface{}, c *core.Ctx) *core.Verdict {
 		c.Stats.Inc("probe.full_final_chunk")
 	}
 
+	tempAt := -1 // set by keyless() for insert/extend damage when the plan asks for it
 	// check one image against an oracle under all deliveries
 	try := func(img []byte, what string, sig string, oracle func(res *lib.DecResult, d seam.Delivery) *core.Verdict) *core.Verdict {
 		src := img
@@ -402,7 +408,14 @@ func (e C02) Execute(plan interface{}, c *core.Ctx) *core.Verdict {
 			armored = true
 		}
 		for di, d := range deliveries {
-			s := seam.NewSource(src, d, nil, nil)
+			var sf *seam.SrcFault
+			if di == 0 && tempAt >= 0 && !p.Rearmor && len(img) > len(F) {
+				// the foreign bytes come in one Read that also reports a transient error
+				sf = &seam.SrcFault{At: tempAt, K: len(img) - len(F), Mode: "once-data", Temp: true}
+				d.Bufio = 0
+				c.Stats.Inc("fault.src_transient_error_with_the_foreign_bytes")
+			}
+			s := seam.NewSource(src, d, sf, nil)
 			c.Log.Add("case %s delivery=%s", what, d)
 			reads := p.Reads
 			if di == 2 {
@@ -449,6 +462,14 @@ func (e C02) Execute(plan interface{}, c *core.Ctx) *core.Verdict {
 			})
 		}
 		c.Stats.Inc("fault." + d.Kind)
+		tempAt = -1
+		if p.SrcTemp && (d.Kind == "insert" || d.Kind == "extend") {
+			tempAt = firstDiff(img, F)
+			if tempAt < l.HeaderLen+16 {
+				tempAt = -1 // inside what Decrypt itself reads: the header reader's buffer would separate data and error
+			}
+		}
+		defer func() { tempAt = -1 }()
 		if d.Kind == "extend" && len(l.Payload) == ref.EncChunk*l.NChunks {
 			c.Stats.Inc("probe.full_final_plus_trailing")
 			if d.Fill == "sealedempty" {
